@@ -26,6 +26,11 @@ func TestMain(m *testing.M) {
 	// machine the collector can fall behind, so give it a soft ceiling well below the
 	// driver's address-space limit.
 	debug.SetMemoryLimit(3 << 30)
+	// The live heap is ~10 MB while Parse churns through GBs per second: with the default
+	// GOGC that is a collection every few ms, each needing all Ps to rendezvous, which on an
+	// oversubscribed machine (12 shards x 16 Ps) costs far more than the work itself.
+	debug.SetGCPercent(400)
+	runtime.GOMAXPROCS(2)
 	pbt.Main(m)
 }
 
@@ -285,7 +290,7 @@ func genItem(t *rapid.T, allowBig bool) Item {
 	var n int
 	k := rapid.IntRange(0, 399).Draw(t, "len_kind")
 	switch {
-	case allowBig && k == 0:
+	case allowBig && gen.Rare(t, "len_big"):
 		n = rapid.SampledFrom([]int{65534, 65535, 65536, 65537}).Draw(t, "len")
 	case k < 200:
 		n = rapid.SampledFrom(boundaryLens).Draw(t, "len")
@@ -303,7 +308,7 @@ func genItem(t *rapid.T, allowBig bool) Item {
 
 func TestParts(t *testing.T) {
 	pbt.Run(t, pbt.Sub[Parts]{
-		Name: "parts", Quick: 36000, Thorough: 600000,
+		Name: "parts", Quick: 96000, Thorough: 2400000,
 		Gen: func(t *rapid.T) Parts {
 			n := rapid.IntRange(1, 6).Draw(t, "n")
 			p := Parts{}
@@ -481,9 +486,6 @@ func genParseCase(t *rapid.T) Scr {
 	return Scr{How: how, Script: s}
 }
 
-// threeByteHeads are the first bytes of the 3-byte scripts enumerated in the thorough tier.
-var threeByteHeads = []byte{0x00, 0x01, 0x02, 0x03, 0x4b, 0x4c, 0x4d, 0x4e, 0x4f, 0x51, 0x63, 0x68, 0x6a, 0x76, 0xff}
-
 func enumShort(tier string, yield func(Scr)) {
 	yield(Scr{How: "enum", Script: pbt.Hex{}})
 	for a := 0; a < 256; a++ {
@@ -509,21 +511,21 @@ func enumShort(tier string, yield func(Scr)) {
 		}
 	}
 	if tier == "thorough" {
-		for _, a := range threeByteHeads {
+		for a := 0; a < 256; a++ {
 			for b := 0; b < 256; b++ {
 				for c := 0; c < 256; c++ {
-					yield(Scr{How: "enum", Script: pbt.Hex{a, byte(b), byte(c)}})
+					yield(Scr{How: "enum", Script: pbt.Hex{byte(a), byte(b), byte(c)}})
 				}
 			}
 		}
 	}
 }
 
-const enumShortDesc = "all 65 793 scripts of length <= 2; 10 scripts with a 65535/65536/65537-byte push in PUSHDATA2/4 form; thorough: also all 3-byte scripts whose first byte is one of 00 01 02 03 4b 4c 4d 4e 4f 51 63 68 6a 76 ff (983 040)"
+const enumShortDesc = "all 65 793 scripts of length <= 2; 10 scripts with a 65535/65536/65537-byte push in PUSHDATA2/4 form; thorough: also all 16 777 216 scripts of 3 bytes"
 
 func TestParseUnparse(t *testing.T) {
 	pbt.Run(t, pbt.Sub[Scr]{
-		Name: "parse-unparse", Quick: 48000, Thorough: 1000000,
+		Name: "parse-unparse", Quick: 150000, Thorough: 4000000,
 		Gen: genParseCase, Check: checkParse,
 		Enum: enumShort, EnumDesc: enumShortDesc,
 	})
@@ -641,7 +643,7 @@ func genAgreeCase(t *rapid.T) Scr {
 
 func TestTokeniserAgreement(t *testing.T) {
 	pbt.Run(t, pbt.Sub[Scr]{
-		Name: "agreement", Quick: 48000, Thorough: 1000000,
+		Name: "agreement", Quick: 150000, Thorough: 4000000,
 		Gen: genAgreeCase, Check: checkAgree,
 		Enum: enumShort, EnumDesc: enumShortDesc + " (those containing an OP_RETURN instruction are counted as discards)",
 	})
@@ -751,7 +753,7 @@ func checkTrunc(ctx *pbt.Ctx, c Scr) error {
 
 func TestTruncation(t *testing.T) {
 	pbt.Run(t, pbt.Sub[Scr]{
-		Name: "truncation", Quick: 18000, Thorough: 300000,
+		Name: "truncation", Quick: 48000, Thorough: 1200000,
 		Gen: func(t *rapid.T) Scr {
 			o := fullOpts
 			o.MaxInstr = 6
@@ -855,7 +857,7 @@ func checkHexJSON(ctx *pbt.Ctx, c Scr) error {
 
 func TestHexJSON(t *testing.T) {
 	pbt.Run(t, pbt.Sub[Scr]{
-		Name: "hex-json", Quick: 30000, Thorough: 600000,
+		Name: "hex-json", Quick: 60000, Thorough: 1600000,
 		Gen: func(t *rapid.T) Scr {
 			if rapid.IntRange(0, 1).Draw(t, "kind") == 0 {
 				n := gen.EdgeLen(t, 600, "len", 0, 1, 2, 25, 75, 76, 255, 256, 520)
@@ -970,7 +972,7 @@ func nonPushOps() []byte {
 
 func TestASM(t *testing.T) {
 	pbt.Run(t, pbt.Sub[Scr]{
-		Name: "asm", Quick: 30000, Thorough: 600000,
+		Name: "asm", Quick: 96000, Thorough: 2400000,
 		Gen: func(t *rapid.T) Scr {
 			s := gen.Script(t, asmOpts)
 			// keep it a non-data script: it must not start with OP_RETURN / OP_FALSE OP_RETURN
